@@ -39,7 +39,16 @@ def observe(text, c):
     if s is None:
         obs['errors']['parse'] = err
         return None, obs
-    obs['patterns'] = [tuple(dict(x) for x in p) for p in s.patterns]
+    # the call dictionaries hold the strings of the file; anything else is reported (and rendered as a string so that the case still runs)
+    def as_str(v):
+        if isinstance(v, str):
+            return v
+        obs['errors']['patterns'] = f'a pattern entry is a {type(v).__name__}, not the string of the file'
+        try:
+            return mv_chars(np.asarray(v).reshape(-1))
+        except Exception:   # noqa
+            return str(v)
+    obs['patterns'] = [tuple({k: as_str(v) for k, v in dict(x).items()} for x in p) for p in s.patterns]
 
     def maps():
         interface, pi_map, po_map, scan_maps, scan_inv = s._maps(c)
@@ -59,6 +68,12 @@ def observe(text, c):
     if err:
         obs['errors']['loc'] = err
     obs['init'] = _t(grabbed['init']) if 'init' in grabbed else None
+    # a StilFile is queried many times: the same query must give the same arrays again (after all the other queries)
+    for key, f in (('tests', lambda: _t(s.tests(c))), ('resp', lambda: _t(s.responses(c))), ('loc', lambda: _t(s.tests_loc(c)))):
+        again, err = _try(f)
+        if obs.get(key) is not None and again != obs[key]:
+            obs['errors']['repeat'] = f'{key}: a second query of the same StilFile returned different values ({err or "no exception"})'
+            break
     obs['sims'] = []
     if obs['init'] is not None:
         def sim():
